@@ -18,7 +18,7 @@ PROGRAMS = [
 ]
 # the two value sets share y and differ in x (and in len(x)): a construction that keeps x lazy is legitimately shared
 # between them (superset branch), one that keeps only y lazy is not
-VALUES = [{"x": [1, 2], "y": 5}, {"x": [3, 4, 5], "y": 5}]
+VALUES = [{"x": [1, 2], "y": 5}, {"x": [3], "y": 5}]
 LAZY_SETS = [["x"], ["y"], ["x", "y"]]
 INPUT_NAMES = ["spec", "x", "y"]
 
